@@ -57,8 +57,9 @@ type Chain struct {
 	Value int
 }
 
-// SelfSlice is a slice of itself.
+// SelfSlice is a slice of itself; SelfPtrSlice a slice of pointers to itself.
 type SelfSlice []SelfSlice
+type SelfPtrSlice []*SelfPtrSlice
 
 // Types with kinds the library does not support.
 type BadChan struct {
